@@ -318,7 +318,12 @@ func c03history(r *core.Recorder, p *rig.ProxyRig, o *rig.Origin, mode rig.Mode,
 	}
 	do := func(name string) (*rig.Resp, c03probe) {
 		seq := o.LastSeq()
-		resp := rig.Do(p, mode, o.Addr, rig.Req{Target: "/" + c.ID})
+		q := rig.Req{Target: "/" + c.ID}
+		if len(c.ID)%2 == 0 {
+			// the client's own cache directives must not influence how long the proxy keeps the origin's answer
+			q.Header = [][2]string{{"Cache-Control", "max-age=86400"}, {"Expires", time.Now().Add(24 * time.Hour).UTC().Format(http.TimeFormat)}}
+		}
+		resp := rig.Do(p, mode, o.Addr, q)
 		pr := c03probe{Name: name, CallMs: float64(resp.Call) / 1e6, RetMs: float64(resp.Ret) / 1e6, Contact: contact(seq), XCache: resp.Get("X-Cache"), CacheStatus: resp.Get("Cache-Status"), Age: resp.Get("Age"), Status: resp.Status}
 		return resp, pr
 	}
